@@ -6,6 +6,7 @@ import (
 	"sync"
 
 	"github.com/getlantern/goexpr"
+	"github.com/getlantern/zenodb/common"
 	"github.com/getlantern/zenodb/core"
 	"github.com/getlantern/zenodb/sql"
 )
@@ -61,7 +62,16 @@ func planSubQueries(opts *Opts, query *sql.Query) (func(ctx context.Context) ([]
 					mx.Unlock()
 					return true, nil
 				}
-				_, err := sqPlan.Iterate(ctx, core.FieldsIgnored, onRow)
+				stats, err := sqPlan.Iterate(ctx, core.FieldsIgnored, onRow)
+				if err == nil {
+					// A cluster query reports partitions that failed or had no handler
+					// only through its stats. Values from those partitions are missing
+					// from the IN list, so the outer query must not go ahead as if the
+					// list were complete.
+					if qs, ok := stats.(*common.QueryStats); ok && qs != nil && qs.NumSuccessfulPartitions < qs.NumPartitions {
+						err = fmt.Errorf("subquery '%v' is incomplete, missing partitions: %v", sq.SQL, qs.MissingPartitions)
+					}
+				}
 
 				dims := make([]interface{}, 0, len(uniques))
 				if err == nil || err == core.ErrDeadlineExceeded {
